@@ -94,7 +94,9 @@ def _eval(obj, df, mode):
     import warnings
     import formulae
     old = formulae.config["EVAL_UNSEEN_CATEGORIES"]
-    formulae.config["EVAL_UNSEEN_CATEGORIES"] = mode
+    # the value a configuration file / environment variable / CLI option delivers: an equal string that is
+    # not the interned literal of the source code (a policy compared by identity would not recognise it)
+    formulae.config["EVAL_UNSEEN_CATEGORIES"] = "".join(list(mode)) if len(df) % 2 == 0 else mode
     try:
         with warnings.catch_warnings(record=True) as w:
             warnings.simplefilter("always")
